@@ -50,7 +50,7 @@ func loadRealAt(sources []*ast.Source, preludePos int) (l ALoaded, schema *ast.S
 		s, err = validator.LoadSchema(all...)
 	}
 	if err != nil {
-		l = ALoaded{Types: []string{}, Dirs: []string{}, Possible: []ARel{}, Implements: []ARel{}, Q: []string{}, M: []string{}, S: []string{}, Files: []string{}}
+		l = ALoaded{Types: []string{}, Builtins: []string{}, Dirs: []string{}, Possible: []ARel{}, Implements: []ARel{}, Q: []string{}, M: []string{}, S: []string{}, Files: []string{}}
 		l.Err = err.Error()
 		var ge *gqlerror.Error
 		if errors.As(err, &ge) {
